@@ -6,8 +6,11 @@
 Require Extraction.
 Require Import ExtrOcamlBasic.
 From SwiftMT Require Import Base.Bytes Dispatch.Model Dispatch.Facts Dispatch.Instance.
+From SwiftMT Require Import Base.StrOps Engine.Layout Engine.Tokens Engine.Extract Engine.Instance.
 
 Extraction "swiftmt_model.ml"
   Dispatch.Model.parse_typed Dispatch.Model.parse_auto Dispatch.Model.plugin_parse
   Dispatch.Model.plugin_validate Dispatch.Model.publish Dispatch.Model.wrapper_validate
-  Dispatch.Instance.gen_tables Dispatch.Facts.supported.
+  Dispatch.Instance.gen_tables Dispatch.Facts.supported
+  Engine.Extract.brun Engine.Tokens.trun Engine.Instance.layout_of Engine.Extract.extract_field_content
+  Engine.Extract.b_detect Engine.Extract.b_complete.
